@@ -62,6 +62,9 @@ type Contract struct {
 	Atomics  map[string]*AtomicSpec // "Type.field" -> rely/guarantee
 	Inventory []InventorySpec
 	AllowedCalls *AllowedCalls
+	// ForbiddenCalls: callees the function body (and its closures) must not call: other
+	// write paths of the same resource; helper calls may come and go
+	ForbiddenCalls *AllowedCalls
 	// AbstractCalls: callees (pkg-qualified keys as in allowed-calls) that this proof treats
 	// as uninterpreted deterministic functions of their value arguments
 	AbstractCalls []string
@@ -134,7 +137,7 @@ type Axiom struct {
 var clauseKeywords = map[string]bool{
 	"func": true, "requires": true, "ensures": true, "assigns": true, "loop": true,
 	"safety": true, "auto-invariants": true, "binary": true, "mode": true, "strings": true, "trusted": true, "pure": true, "inline": true,
-	"spec": true, "lemma": true, "axiom": true, "at-call": true, "unroll": true, "atomic": true, "inventory": true, "allowed-calls": true, "abstract-calls": true, "pure-params": true, "package": true,
+	"spec": true, "lemma": true, "axiom": true, "at-call": true, "unroll": true, "atomic": true, "inventory": true, "allowed-calls": true, "forbidden-calls": true, "abstract-calls": true, "pure-params": true, "package": true,
 }
 
 var tagRe = regexp.MustCompile(`^\[(C[0-9]+\.[A-Za-z0-9_.-]+)\]\s*`)
@@ -412,6 +415,18 @@ func (cs *ContractSet) loadContractFile(path, pkgPath string) error {
 					ac.Names = append(ac.Names, strings.TrimSpace(w))
 				}
 				cur.AllowedCalls = ac
+			case "forbidden-calls":
+				// forbidden-calls [tag] f1, f2, ...: the function body calls none of these
+				r2 := rest
+				fc := &AllowedCalls{Line: st.line}
+				if m := tagRe.FindStringSubmatch(r2); m != nil {
+					fc.Tag = m[1]
+					r2 = r2[len(m[0]):]
+				}
+				for _, w := range splitTop(r2, ',') {
+					fc.Names = append(fc.Names, strings.TrimSpace(w))
+				}
+				cur.ForbiddenCalls = fc
 			case "inventory":
 				// inventory [tag] Type.field only-in f1, f2
 				inv := InventorySpec{Line: st.line}
